@@ -37,6 +37,18 @@ fn puppet_execute(_d: DepsMut, _e: Env, _i: MessageInfo, m: PuppetExec) -> StdRe
 fn puppet_query(_d: Deps, _e: Env, _m: Empty) -> StdResult<Binary> {
     Ok(Binary::default())
 }
+/// sg721-base with `Sg721Contract::migrate` wired as its migrate entry point.  The crate's
+/// own `entry` module exports no migrate; this is how a contract built on sg721-base uses
+/// the library function, and it lets the histories drive that function on the real code.
+fn base_lib_migrate(deps: DepsMut, env: Env, msg: Empty) -> Result<Response, sg721_base::ContractError> {
+    sg721_base::Sg721Contract::<cw721_base::Extension>::migrate(deps, env, msg)
+}
+pub fn sg721_base_with_lib_migrate() -> Box<dyn Contract<Empty>> {
+    Box::new(
+        ContractWrapper::new(sg721_base::entry::execute, sg721_base::entry::instantiate, sg721_base::entry::query)
+            .with_migrate(base_lib_migrate),
+    )
+}
 pub fn puppet() -> Box<dyn Contract<Empty>> {
     Box::new(ContractWrapper::new(puppet_execute, puppet_instantiate, puppet_query))
 }
@@ -143,6 +155,9 @@ pub enum Op {
     EnableUpdatable,
     /// MsgMigrateContract to the sg721-updatable code (only the wasm admin may)
     Migrate,
+    /// MsgMigrateContract with the code the collection already runs: the variant's own
+    /// migrate entry point
+    MigrateSelf,
 }
 impl Op {
     pub fn kind(&self) -> &'static str {
@@ -171,6 +186,7 @@ impl Op {
             Op::FreezeTokenMd => "freeze_token_metadata",
             Op::EnableUpdatable => "enable_updatable",
             Op::Migrate => "migrate_to_updatable",
+            Op::MigrateSelf => "migrate_same_code",
         }
     }
 }
@@ -311,6 +327,8 @@ pub struct World {
     /// UpdatableMigrated)
     pub variant: Variant,
     pub upd_code: u64,
+    /// code ids: [sg721-base (with the library migrate), sg721-metadata-onchain, sg721-nt]
+    pub own_codes: [u64; 3],
     pub admin: String,
     pub coll: Addr,
     pub addrs: Ids,
@@ -337,7 +355,7 @@ impl World {
         let mut app = chain::new_app();
         chain::set_time(&mut app, setup.time0);
         let puppet_code = app.store_code(puppet());
-        let base_code = app.store_code(chain::sg721_base());
+        let base_code = app.store_code(sg721_base_with_lib_migrate());
         let upd_code = app.store_code(chain::sg721_updatable());
         let onchain_code = app.store_code(chain::sg721_metadata_onchain());
         let nt_code = app.store_code(chain::sg721_nt());
@@ -419,7 +437,7 @@ impl World {
                 .expect("sg721-base -> sg721-updatable migration right after creation");
         }
         addrs.id(coll.as_str());
-        Ok(World { app, variant: setup.variant, upd_code, admin: setup.info.creator.clone(), coll, addrs, texts, uris })
+        Ok(World { app, variant: setup.variant, upd_code, own_codes: [base_code, onchain_code, nt_code], admin: setup.info.creator.clone(), coll, addrs, texts, uris })
     }
 
     fn q<T: serde::de::DeserializeOwned>(&self, msg: &Value) -> T {
@@ -545,7 +563,7 @@ impl World {
             }
             Op::FreezeTokenMd => json!({"freeze_token_metadata": {}}),
             Op::EnableUpdatable => json!({"enable_updatable": {}}),
-            Op::Migrate => json!({}),
+            Op::Migrate | Op::MigrateSelf => json!({}),
         }
     }
 
@@ -570,8 +588,18 @@ impl World {
         let supply0 = total(&self.app);
         let pool0 = chain::balance(&self.app, chain::FAIRBURN_POOL, NATIVE);
         let coll = self.coll.clone();
-        if st.op == Op::Migrate {
-            let (app, code) = (&mut self.app, self.upd_code);
+        if st.op == Op::Migrate || st.op == Op::MigrateSelf {
+            let code = if st.op == Op::Migrate {
+                self.upd_code
+            } else {
+                match self.variant {
+                    Variant::Base => self.own_codes[0],
+                    Variant::Updatable | Variant::UpdatableMigrated => self.upd_code,
+                    Variant::Onchain => self.own_codes[1],
+                    Variant::Nt => self.own_codes[2],
+                }
+            };
+            let app = &mut self.app;
             let r = match catch(|| app.migrate_contract(Addr::unchecked(st.sender.clone()), coll.clone(), &Empty {}, code)) {
                 Ok(Ok(_)) => Ok(()),
                 Ok(Err(e)) => Err(format!("{:#}", e)),
@@ -579,7 +607,7 @@ impl World {
             };
             return match r {
                 Ok(()) => {
-                    if !self.variant.updatable() {
+                    if st.op == Op::Migrate && !self.variant.updatable() {
                         self.variant = Variant::UpdatableMigrated;
                     }
                     (true, String::new(), 0, 0)
@@ -694,6 +722,9 @@ impl World {
         if *op == Op::Migrate {
             return "AMigrate".into();
         }
+        if *op == Op::MigrateSelf {
+            return "AMigrateSelf".into();
+        }
         format!("(ACall {})", self.coq_call(op))
     }
     fn coq_call(&mut self, op: &Op) -> String {
@@ -715,7 +746,7 @@ impl World {
             Op::UpdateTokenMd { id, uri } => format!("(OUpdateTokenMd {} {})", id, self.coq_uri(uri)),
             Op::FreezeTokenMd => "OFreezeTokenMd".into(),
             Op::EnableUpdatable => "OEnableUpdatable".into(),
-            Op::Migrate => unreachable!(),
+            Op::Migrate | Op::MigrateSelf => unreachable!(),
         }
     }
 }
@@ -963,6 +994,26 @@ pub fn version_grid() -> Vec<String> {
     v.push((a, b, c + 1));
     v.push((a + 1, 0, 0));
     v.into_iter().map(|(x, y, z)| format!("{}.{}.{}", x, y, z)).collect()
+}
+pub const NAME_ONCHAIN: &str = "crates.io:sg721-metadata-onchain";
+pub const NAME_NT: &str = "crates.io:sg721-nt";
+/// the cw2 name each variant records for itself
+pub fn own_name(v: Variant) -> &'static str {
+    match v {
+        Variant::Base => NAME_BASE,
+        Variant::Updatable | Variant::UpdatableMigrated => NAME_UPD,
+        Variant::Onchain => NAME_ONCHAIN,
+        Variant::Nt => NAME_NT,
+    }
+}
+/// version_grid plus records whose STRING order differs from their semver order
+/// (Sg721Contract::migrate compares strings)
+pub fn version_grid_self() -> Vec<String> {
+    let mut v = version_grid();
+    for x in ["3.9.9", "3.10.0", "10.0.0"] {
+        v.push(x.to_string());
+    }
+    v
 }
 pub fn default_info() -> InfoSpec {
     InfoSpec {
